@@ -139,7 +139,20 @@ def _skips(o, fn, loop, induction):
             if all(any(isinstance(x, ast.Call) and isinstance(x.func, ast.Attribute) and x.func.attr in ("extend", "append") and "edge_list" in txt(x.func.value) for y in b for x in ast.walk(y))
                    and not any(isinstance(x, (ast.Break, ast.Return)) for y in b for x in ast.walk(y)) for b in jumping):
                 continue   # `if ...: <record the motif>; continue` is an if/else arm, not a skipped chunk
-            if astx.names_in(s.test) <= set(induction) | {"len"}:
+            # `if not X[k]: break` - THIS item is empty, so the whole loop is left: every later item is dropped with it
+            t0 = s.test.operand if isinstance(s.test, ast.UnaryOp) and isinstance(s.test.op, ast.Not) else None
+            if t0 is None and isinstance(s.test, ast.Compare) and len(s.test.ops) == 1 and isinstance(s.test.ops[0], ast.Eq) and astx.const_value(s.test.comparators[0]) == 0 \
+                    and isinstance(s.test.left, ast.Call) and txt(s.test.left.func) == "len" and s.test.left.args:
+                t0 = s.test.left.args[0]
+            leaves_loop = any(isinstance(x, (ast.Break, ast.Return)) for b in jumping for y in b for x in ast.walk(y))
+            derived = set(induction)
+            for s2 in loop.body:
+                if isinstance(s2, (ast.Assign, ast.AnnAssign)) and s2.value is not None and astx.names_in(s2.value) & derived:
+                    derived |= astx.names_in(s2.targets[0] if isinstance(s2, ast.Assign) else s2.target)
+            if t0 is not None and isinstance(t0, ast.Subscript) and astx.names_in(t0.slice) & derived and leaves_loop and jumping == [s.body]:
+                o.violated(fn, s, f"`if {txt(s.test)}: break` leaves the loop as soon as ONE item has no stubs: the items that come after it (which may have stubs) are never "
+                                  "built into motifs - an empty item calls for `continue`", shape_free=True)
+            elif astx.names_in(s.test) <= set(induction) | {"len"}:
                 o.violated(fn, s, f"`if {txt(s.test)}` skips part of the stubs for some valid joint degree sequence")
             else:
                 o.undecided(f"guarded skip `if {txt(s.test)}` in a consumption loop", fn, s)
@@ -179,6 +192,10 @@ def run(ctx):
     with ctx.obligation("C01.1", "stub multiset: vertex v repeated jds[v][k] times, v from 0", floor=2) as o:
         for g in gens.values():
             _stub_shape(g, o)
+
+    with ctx.obligation("C01.1", "every exit of a generator comes after its stub loops") as o:
+        for qn in gen_common.GENERATORS:
+            gen_common.early_exits(o, prog, qn)
 
     with ctx.obligation("C01.2", "between construction and grouping the stub lists are only permuted", floor=2) as o:
         for g in gens.values():
@@ -690,7 +707,27 @@ def run(ctx):
             if b is not None and txt(b["p"]) == lf.params[0] and txt(b["q"]) == lf.params[0]:
                 good = True
                 o.holds(lf, r, "entry point builds the enum from params[GCM_TYPE] and returns the factory's result unchanged")
-        if not good:
+        # the type is looked up AS GIVEN (a member or its value): text transformations turn a member into a string that is no value of the
+        # enum, and a handler that maps the failed look-up to some member silently builds a different generator
+        conv = [n for n in astx.walk_fn(lf.node) if isinstance(n, ast.Call) and txt(n.func) == "GCMAlgorithmTypes" and len(n.args) == 1]
+        flagged = False
+        for c_ in conv:
+            a_ = sc.resolve(c_.args[0])
+            texty = [x_ for x_ in ast.walk(a_) if isinstance(x_, ast.Call) and (txt(x_.func) in ("str", "repr", "format") or
+                     (isinstance(x_.func, ast.Attribute) and x_.func.attr in ("lower", "upper", "strip", "casefold", "title", "capitalize")))]
+            if texty and "GCM_TYPE" in txt(a_):
+                flagged = True
+                o.violated(lf, c_, f"the type is looked up as `{txt(a_)[:70]}`: an enum MEMBER passed as {lf.params[0]}[GCM_TYPE] becomes text that is none of the enum's values "
+                                   "(str(GCMAlgorithmTypes.NETWORK) is not 'network'), so the request is not honoured", shape_free=True)
+        for tr_ in [n for n in astx.walk_fn(lf.node) if isinstance(n, ast.Try)]:
+            if any(c_ in list(ast.walk(tr_)) for c_ in conv):
+                for h_ in tr_.handlers:
+                    sets = [x_ for x_ in h_.body if isinstance(x_, (ast.Assign, ast.AnnAssign)) and x_.value is not None and rules.enum_member(x_.value, "GCMAlgorithmTypes")]
+                    if sets:
+                        flagged = True
+                        o.violated(lf, sets[0], f"a type that is not recognised silently becomes GCMAlgorithmTypes.{rules.enum_member(sets[0].value, 'GCMAlgorithmTypes')}: "
+                                                "a different generator than the one asked for is built instead of an error", shape_free=True)
+        if not good and not flagged:
             o.undecided("load_gcm_algorithm does not return GCMAlgorithmFactory.resolve_algorithm(GCMAlgorithmTypes(params[GCM_TYPE]), params)", lf)
 
     # ------------------------------------------------------------------ C01.9
